@@ -203,7 +203,7 @@ pub fn run(h: &Ev, evs: &mut Vec<Value>) {
 /// class "engine": the ChaCha engines behind the verification hook (one event = one query)
 /// {"op":"block"|"hchacha", "engine":"native"|"portable", "rounds", "key", "nonce" (8|12|16 bytes),
 ///  "ctr": limbs (set through set_counter64 when present), "ctr32": limbs (set through set_counter),
-///  "inc": n, "inc64": n  (number of increment()/increment64() calls before the query)}
+///  "inc": n, "inc64": n  (number of increment()/increment64() calls before the query), "ctr32b": limbs (set_counter once more, after the increments)}
 pub fn run_engine(_h: &Ev, evs: &mut Vec<Value>) {
     for ev in evs.iter_mut() {
         let e = ev.as_object().unwrap().clone();
@@ -227,6 +227,10 @@ pub fn run_engine(_h: &Ev, evs: &mut Vec<Value>) {
                     }
                     for _ in 0..get_usize_or(&e, "inc64", 0) {
                         st.increment64();
+                    }
+                    // a second positioning of a state that has already been positioned / advanced
+                    if e.contains_key("ctr32b") {
+                        st.set_counter(get_limbs_u64(&e, "ctr32b") as u32);
                     }
                     if op == "hchacha" {
                         Out::Val(st.hchacha().to_vec())
